@@ -157,8 +157,8 @@ def r3_cipher_tables(ctx, po, pb, rule_id='C13.R3'):
                                 r.violation(q, site, 'the Botan algorithm name "%s" is used for %d-bit keys' % (s_, bits), file=f['file'], line=n['l'])
 
 
-def r4_truncation(ctx, prog):
-    r = ctx.rule('C13.R4', 'asymmetric derivations drop the leading bytes of the shared secret, the symmetric derivation the trailing ones', floor=4, engine='E7')
+def r4_truncation(ctx, prog, rule_id='C13.R4'):
+    r = ctx.rule(rule_id, 'asymmetric derivations drop the leading bytes of the shared secret, the symmetric derivation the trailing ones', floor=4, engine='E7')
     want = {'SoftHSM::deriveDH': 'tail', 'SoftHSM::deriveECDH': 'tail', 'SoftHSM::deriveEDDSA': 'tail', 'SoftHSM::deriveSymmetric': 'head'}
     for q, w in sorted(want.items()):
         f = prog.fn(q)
